@@ -357,6 +357,9 @@ CapEvent(s) ==
   E("cap", c.id, c.b, NoV, [i \in 1 .. Len(c.reads) |-> [b |-> c.reads[i], v |-> s.names[c.reads[i]], w |-> TRUE]])
 
 OnCaller(s) == IsAsync(s.prog) => s.inpoll   \* caller-side events of async macros happen inside a poll
+\* a task that was spawned in front of a suspended construction has panicked: the macro's future learns it only when it joins
+\* the step's handles, i.e. after the construction of the remaining futures
+TaskPanicUnseen(s) == IsTasks(s.prog) /\ s.panicked /\ s.pb >= 0 /\ s.pp = "" /\ s.ph = "step" /\ s.consq # <<>>
 
 StepEvents(s) ==
   LET P == s.prog IN
@@ -365,7 +368,7 @@ StepEvents(s) ==
      /\ s.capq = <<>> /\ JoinerMode(P, s.k) = "during" /\ s.jn = "todo"
   THEN {E("joiner", Cardinality(Active(P, s.k)), -1, NoV, <<>>)}
   ELSE
-  IF s.ph # "step" \/ s.panicked \/ CallerPanics(s) \/ ~OnCaller(s) THEN {}
+  IF s.ph # "step" \/ (s.panicked /\ ~TaskPanicUnseen(s)) \/ CallerPanics(s) \/ ~OnCaller(s) THEN {}
   ELSE IF s.capq # <<>> THEN {CapEvent(s)}
   ELSE IF JoinerMode(P, s.k) = "before" /\ s.jn = "todo"
        THEN {E("joiner", Cardinality(Active(P, s.k)), -1, NoV, <<>>)}
@@ -410,6 +413,7 @@ EndEvents(s) ==
   IF s.ph = "closed" \/ s.ph = "ended" THEN {}
   ELSE IF s.panicked /\ s.pp = ""
        THEN (IF IsAsync(P) /\ ~s.inpoll THEN {}
+             ELSE IF TaskPanicUnseen(s) THEN {}
              ELSE IF IsSpawn(P) /\ ~IsAsync(P) /\ s.pb >= 0
                      /\ ~(\A b \in Active(P, s.k) : b < s.pb => b \in s.ended) THEN {}
              ELSE {EEnd([t |-> "panicked", vals |-> <<>>])})
@@ -423,7 +427,7 @@ PollEvents(s) ==
   LET P == s.prog IN
   IF ~IsAsync(P) \/ s.ph \in {"new", "created0", "ended", "closed"} \/ s.polldone THEN {}
   ELSE IF ~s.inpoll THEN {E("poll", 0, -1, NoV, <<>>)}
-  ELSE IF s.panicked \/ s.pp # "" THEN {}
+  ELSE IF (s.panicked /\ ~TaskPanicUnseen(s)) \/ s.pp # "" THEN {}
   ELSE \* inside a poll: how can it end?
     (IF s.ph = "fin" /\ (s.dropsFree \/ s.garbage = {}) THEN {E("pollend", 1, -1, NoV, <<>>)} ELSE {})
     \cup
@@ -575,7 +579,7 @@ Apply(s, e) ==
       s3 == Settle(s2)
   IN  \* tasks: a branch task that completes outside a root poll must wake the root
       \* (so must one that panics: its handle completes with the panic, which the root then raises)
-      IF IsTasks(s.prog) /\ ~s3.inpoll /\ (s3.ended # s.ended \/ (s3.panicked /\ ~s.panicked /\ e.b >= 0)) /\ s3.k = s.k
+      IF IsTasks(s.prog) /\ ~s3.inpoll /\ (s3.ended # s.ended \/ (s3.panicked /\ ~s.panicked /\ e.b >= 0 /\ Constructed(s3))) /\ s3.k = s.k
       THEN [s3 EXCEPT !.sinceWake = TRUE] ELSE s3
 
 \* environment: release gates (threads: one at a time; futures: a batch)
